@@ -685,10 +685,36 @@ func propC19Relative(t *rapid.T) {
 	os.Stdout, os.Stderr = fo, fe
 	defer func() { os.Stdout, os.Stderr = so, se; fo.Close(); fe.Close() }()
 	rel := rapid.SampledFrom([]string{"stdout", "stderr", "./stdout", "./stderr", "sub/../stdout", "sub/../stderr", "sub/stdout", "a.log", "./a.log", "sub/./b.log",
-		"sub/deep/../c.log", "sub//d.log", "stdout.log", "x/../stderr", "sub/deep/../../stdout"}).Draw(t, "relativePath")
+		"sub/deep/../c.log", "sub//d.log", "stdout.log", "x/../stderr", "sub/deep/../../stdout",
+		"q.log?mode=1", "f.log#frag", "./q2.log?x=1&y=2", "sub/f2.log#f", "stdout?x=1", "stderr#f", "sub/q3.log?q"}).Draw(t, "relativePath")
 	special := rel == "stdout" || rel == "stderr"
 	ws, closeFn, oerr := zap.Open(rel)
 	target := filepath.Join(dir, rel) // what the operating system resolves the relative path to
+	if strings.ContainsAny(rel, "?#") {
+		// a scheme-less string is a file URL like any other: with a query or a fragment it is not opened. Whatever
+		// a reader makes of such a string, it never names the file obtained by DROPPING the query or fragment:
+		// either nothing is opened, or exactly the string as written.
+		if oerr == nil {
+			ws.Write([]byte("relative\n"))
+			ws.Sync()
+			closeFn()
+		}
+		capOut, _ := os.ReadFile(filepath.Join(dir, ".captured-stdout"))
+		capErr, _ := os.ReadFile(filepath.Join(dir, ".captured-stderr"))
+		if len(capOut) != 0 || len(capErr) != 0 {
+			t.Fatalf("Open(%q) (err=%v) wrote to a standard stream", rel, oerr)
+		}
+		for _, f := range listFiles(dir) {
+			if base := filepath.Base(f); base == ".captured-stdout" || base == ".captured-stderr" {
+				continue
+			}
+			if oerr != nil || f != target {
+				t.Fatalf("Open(%q) (err=%v) created %q: a path with a query or fragment is rejected, never opened with that part dropped", rel, oerr, f)
+			}
+		}
+		statCase("C19", true, "rel|"+rel, "relative path", "relative path with query or fragment")
+		return
+	}
 	if strings.HasPrefix(rel, "x/") {
 		// the directory x does not exist: the OS rejects x/../stderr
 		if oerr == nil {
